@@ -746,6 +746,15 @@ impl<'tcx> Cx<'tcx> {
                         return None;
                     }
                 }
+                // A constant of the crate under analysis whose type mentions the parameters (`impl<S, R> Partial<S, R> { const
+                // EMPTY: Self = Partial { scale: None, .. } }`): its straight-line initialiser is interpreted like a promoted.
+                if did.is_local() && { use rustc_middle::ty::TypeVisitableExt; cty.has_non_region_param() } {
+                    let b = std::panic::catch_unwind(std::panic::AssertUnwindSafe(|| tcx.mir_for_ctfe(did)));
+                    if let Ok(b) = b {
+                        return self.eval_straight_line(st, b, inst);
+                    }
+                    return None;
+                }
                 if cty.is_bool() && matches!(krate.as_str(), "core" | "alloc" | "std") {
                     use rustc_middle::ty::TypeFoldable;
                     let f32t = tcx.types.f32;
@@ -760,6 +769,11 @@ impl<'tcx> Cx<'tcx> {
                 return None;
             }
         };
+        self.eval_straight_line(st, body, inst)
+    }
+
+    fn eval_straight_line(&self, st: &mut State<'tcx>, body: &'tcx mir::Body<'tcx>, inst: Instance<'tcx>) -> Option<V<'tcx>> {
+        let tcx = self.tcx;
         if body.basic_blocks.len() != 1 || !matches!(body.basic_blocks[mir::START_BLOCK].terminator().kind, TerminatorKind::Return) {
             return None;
         }
@@ -2137,11 +2151,116 @@ impl<'tcx> Cx<'tcx> {
             let t = self.sc(st, &argv[0])?;
             return Ok(Some(V::Sym(app("len", vec![t]))));
         }
+        if pretty == "std::intrinsics::raw_eq" || pretty == "core::intrinsics::raw_eq" {
+            // bytewise equality of two arrays of integers / bools (`[bool; N] == [bool; N]`): the conjunction of the element
+            // equalities, evaluated without short-circuit
+            if let (V::Ref(a), V::Ref(b)) = (&argv[0], &argv[1]) {
+                let pty = self.ptr_ty(st, a)?;
+                if let ty::Array(ety, _) = pty.kind() {
+                    if ety.is_bool() || ety.is_integral() {
+                        if let (V::Agg(xs), V::Agg(ys)) = (self.read(st, a)?, self.read(st, b)?) {
+                            if xs.len() == ys.len() {
+                                let mut acc = V::Int(1);
+                                for (x, y) in xs.iter().zip(ys.iter()) {
+                                    let e = match (x, y) {
+                                        (V::Int(p), V::Int(q)) => V::Int((p == q) as u128),
+                                        (x, V::Int(1)) | (V::Int(1), x) if ety.is_bool() => x.clone(),
+                                        (x, V::Int(0)) | (V::Int(0), x) if ety.is_bool() => V::Sym(app("not", vec![self.to_term(st, x)])),
+                                        _ => self.binop(st, mir::BinOp::Eq, x, y, *ety),
+                                    };
+                                    acc = self.binop(st, mir::BinOp::BitAnd, &acc, &e, self.tcx.types.bool);
+                                }
+                                return Ok(Some(acc));
+                            }
+                        }
+                    }
+                }
+            }
+        }
         if pretty == "std::intrinsics::size_of" || pretty == "core::intrinsics::size_of" || pretty == "std::mem::size_of" || pretty == "core::mem::size_of" {
             return Ok(Some(V::Sym(app("size_of", vec![cstr(&format!("{:?}", cargs))]))));
         }
         let _ = dty;
         Ok(None)
+    }
+
+    /// A method of core's iterator plumbing whose implementation is selected by specialisation (`FlattenCompat::try_fold` is
+    /// specialised on `U: OneShot`) cannot be resolved while the element type is a parameter.  The selection is made with the
+    /// parameters replaced by three different assignments of scalar types; if all three select the same item, with the same
+    /// arguments once the scalars are mapped back to the parameters, that item is the one every instantiation uses.
+    fn resolve_parametric(&self, cdid: DefId, cargs: GenericArgsRef<'tcx>) -> Option<Instance<'tcx>> {
+        use rustc_middle::ty::{TypeFoldable, TypeSuperVisitable, TypeVisitable, TypeVisitor};
+        let tcx = self.tcx;
+        let marks = [tcx.types.f32, tcx.types.f64, tcx.types.i32, tcx.types.u8];
+        struct Seen<'tcx> {
+            params: Vec<(u32, Ty<'tcx>)>,
+            tys: Vec<Ty<'tcx>>,
+        }
+        impl<'tcx> TypeVisitor<TyCtxt<'tcx>> for Seen<'tcx> {
+            fn visit_ty(&mut self, t: Ty<'tcx>) {
+                if let ty::Param(p) = t.kind() {
+                    if !self.params.iter().any(|(i, _)| *i == p.index) {
+                        self.params.push((p.index, t));
+                    }
+                } else {
+                    self.tys.push(t);
+                }
+                t.super_visit_with(self)
+            }
+        }
+        let mut seen = Seen { params: vec![], tys: vec![] };
+        cargs.visit_with(&mut seen);
+        if seen.params.is_empty() || seen.params.len() > marks.len() || seen.tys.iter().any(|t| marks.contains(t)) {
+            return None;
+        }
+        let mut found: Option<(DefId, GenericArgsRef<'tcx>)> = None;
+        for rot in 0..3 {
+            let assign: Vec<(u32, Ty<'tcx>, Ty<'tcx>)> = seen.params.iter().enumerate().map(|(i, p)| (p.0, marks[(i + rot) % marks.len()], p.1)).collect();
+            let fwd = cargs.fold_with(&mut ty::BottomUpFolder {
+                tcx,
+                ty_op: |t| match t.kind() {
+                    ty::Param(p) => assign.iter().find(|(i, _, _)| *i == p.index).map(|(_, m, _)| *m).unwrap_or(t),
+                    _ => t,
+                },
+                lt_op: |l| l,
+                ct_op: |c| c,
+            });
+            let r = std::panic::catch_unwind(std::panic::AssertUnwindSafe(|| Instance::try_resolve(tcx, self.tenv, cdid, fwd)));
+            let inst = match r {
+                Ok(Ok(Some(i))) => i,
+                _ => return None,
+            };
+            let did = match inst.def {
+                InstanceKind::Item(d) => d,
+                _ => return None,
+            };
+            // map the scalars back to the parameters they stand for
+            let back = inst.args.fold_with(&mut ty::BottomUpFolder {
+                tcx,
+                ty_op: |t| match assign.iter().find(|(_, m, _)| *m == t) {
+                    Some((_, _, orig)) => *orig,
+                    None => t,
+                },
+                lt_op: |l| l,
+                ct_op: |c| c,
+            });
+            match &found {
+                None => found = Some((did, back)),
+                Some((d0, a0)) => {
+                    if *d0 != did || *a0 != back {
+                        return None;
+                    }
+                }
+            }
+        }
+        let (did, args) = found?;
+        // (every marker must have been mapped back)
+        let mut seen2 = Seen { params: vec![], tys: vec![] };
+        args.visit_with(&mut seen2);
+        if seen2.tys.iter().any(|t| marks.contains(t)) {
+            return None;
+        }
+        Some(Instance::new_raw(did, args))
     }
 
     #[allow(clippy::too_many_arguments)]
@@ -2292,6 +2411,10 @@ impl<'tcx> Cx<'tcx> {
                 Ok(r) => r,
                 Err(_) => return Err(format!("resolution error for {}", pretty)),
             }
+        };
+        let resolved = match resolved {
+            None if !always_opaque && name.starts_with("core::iter::") && !name.starts_with("core::iter::adapters::zip::") => self.resolve_parametric(cdid, cargs),
+            r => r,
         };
         if let Some(inst) = resolved {
             let rpretty = tcx.def_path_str(inst.def_id());
